@@ -70,6 +70,9 @@ def events_of(case):
     for seg in case["segments"]:
         if "set" in seg:
             ev.append({"v": seg["set"]})
+        if "handshake" in seg:  # a real initialize handshake (stdio_client_with_initialize): the child answers with this version
+            ev.append({"reply_init": seg["handshake"]})
+            ev.append({"sleep": 4})
         if seg.get("close_stdin"):
             ev.append({"close_stdin": 1})
         b = seg_bytes(seg)
@@ -132,6 +135,13 @@ class Transport(Suite):
             # more members than the 100-slot streams hold, consumer late
             many = [dict(VALID[1], params={"i": i}) if i % 2 else dict(VALID[2], id=i) for i in range(230)]
             out.append({"segments": [{"set": v, "items": [line(many), line(VALID[0])], "cuts": []}], "opts": {"consumer": "late"}})
+        # a REAL handshake (stdio_client_with_initialize -> send_initialize_with_client_tracking -> set_protocol_version) at each
+        # supported version, then batches
+        from chuk_mcp.protocol.types.versioning import SUPPORTED_VERSIONS
+        for v in SUPPORTED_VERSIONS:
+            out.append({"segments": [{"handshake": v, "items": mixed, "cuts": []}], "opts": {"api": "with_initialize"}})
+            out.append({"segments": [{"handshake": v, "items": [line([VALID[0], INVALID[0], VALID[1]]), line([]), line(VALID[2])], "cuts": [9]}],
+                        "opts": {"api": "with_initialize"}})
         # version changes mid-connection
         n = 600 if budget == "quick" else 8000
         for _ in range(n):
@@ -169,7 +179,12 @@ class Transport(Suite):
     def model_line(self, case):
         table, _ = G.line_table(all_texts(case))
         # (the reader model does not know about the child's stdin: with it closed the rejection is decided but cannot be written)
-        return {"m": "stdio_reader", "events": [e for e in events_of(case) if "close_stdin" not in e], "table": table, "cap": 100}
+        evs = []
+        for e in events_of(case):
+            if "close_stdin" in e or "sleep" in e:
+                continue
+            evs.append({"v": e["reply_init"]} if "reply_init" in e else e)  # the handshake's only effect on the reader: the version
+        return {"m": "stdio_reader", "events": evs, "table": table, "cap": 100}
 
     def model_obs(self, out, case):
         if "driver_error" in out:
@@ -185,7 +200,8 @@ class Transport(Suite):
             return "delivered"
         if not G.notif_ok(o["notified"], m["notified"]):
             return "notified"
-        if not any(seg.get("close_stdin") for seg in case["segments"]) and len(o["writes"]) != m["rejections"]:
+        nw = len([w for w in o["writes"] if not (isinstance(w.get("json"), dict) and "method" in w["json"])])
+        if not any(seg.get("close_stdin") for seg in case["segments"]) and nw != m["rejections"]:
             return "rejections"
         return None
 
@@ -201,6 +217,8 @@ class Transport(Suite):
             if "set" in seg:
                 mode = mode_of(seg["set"])
                 sets.append({"set": seg["set"], "enabled": mode})
+            if "handshake" in seg:
+                mode = mode_of(seg["handshake"])
             if seg.get("close_stdin"):
                 stdin_open = False
             for it in seg["items"]:
@@ -235,7 +253,8 @@ class Transport(Suite):
                         "a member of a batch received at a version without batching was delivered", want)
             return ("batch-members-differ", "the read stream is not: every single message and, at versions with batching, "
                     "every valid batch member in order (invalid members dropped alone)", want)
-        writes = o["writes"]
+        # what the client writes of its own accord during a handshake (initialize, notifications/initialized) is not an answer to a batch
+        writes = [w for w in o["writes"] if not (isinstance(w.get("json"), dict) and "method" in w["json"])]
         if len(writes) != want["rejections"]:
             return ("rejection-count", "the number of messages written back is not the number of batches received at a version "
                     "without batching (exactly one error per such batch, none otherwise)", want)
@@ -263,7 +282,7 @@ class Transport(Suite):
             tags.append("rejects")
         if any(v[0] == "batch" for v in (self._pl(t) for t in all_texts(case))):
             tags.append("batch")
-        sets = [seg.get("set", "unset") for seg in case["segments"]]
+        sets = [seg.get("set", seg.get("handshake", "unset")) for seg in case["segments"]]
         if len({mode_of(s) if s != "unset" else True for s in sets}) > 1:
             tags.append("mode-change")
         return f"segments={min(nseg, 3)}{'+' if nseg > 3 else ''}/" + ("+".join(tags) or "plain")
